@@ -911,6 +911,441 @@ class _Outcome(Exception):
 
 
 # ---------------------------------------------------------------------------
+# R-DSC: the endpoint translation when a link entry is followed into the next layer
+# ---------------------------------------------------------------------------
+
+def rule_dsc(S):
+    facts = S.facts()
+    S.rule('R-DSC', 'scan_border<V>, entry that continues in the next layer (the link path): abstract execution from the '
+                    'test of the entry length to the nested scan call (descend), the loop latch (skip) or `return '
+                    'OK_SCAN_END`, over {INF, INCL, EXCL}^2 x sign of the left slice comparison x l_key.size() vs 8 x sign '
+                    'of the right key comparison x r_key.size() vs the size of the link\'s key prefix: the outcome and the '
+                    'endpoints handed to the nested scan equal the reference: left: INF if l is below the link\'s slice, '
+                    'the rest of l (l without its first slice) with l_end if l continues below this link, anything '
+                    'that excludes nothing if l ends with this slice, skip if l is above; right (r is compared as a '
+                    'whole key): end if r is below or equal to the link\'s prefix, r with r_end if r continues below this '
+                    'link, INF if r is above')
+    from yk.flow import dominators
+    agg = {}
+    for f in sorted([g for g in facts.by_qname('yakushima::scan_border') if not g.is_lambda], key=lambda x: x.fid):
+        (_, lk, le), (_, rk, re_) = pairs_of(f)
+        res = [p['id'] for p in f.params if 'std::vector<std::tuple<' in p['type']][0]
+        nested = [n for n in f.all_nodes() if is_call(n, cq='yakushima::scan')]
+        if len(nested) != 1:
+            raise AnalysisBroken('R-DSC: expected one nested scan call in scan_border, found %d' % len(nested))
+        # start: the branch on `<entry length> > sizeof(slice)`
+        start = None
+        cands = []
+        for b, blk in f.blocks.items():
+            if blk.term and 'cond' in blk.term and len(blk.succ) == 2:
+                c = f.strip(blk.term['cond'], casts=True)
+                if c is not None and c['k'] == 'BinaryOperator' and c.get('op') in ('>', '<=', '>=', '<'):
+                    l, r = [f.strip(x, casts=True) for x in f.ch(c)]
+                    tys = [(x.get('ty') or '').replace('const ', '') for x in (l, r)]
+                    if 'unsigned char' in tys and any(cv_of(f, x) == 8 for x in f.ch(c)):
+                        if _reaches(f, b, nested[0]):
+                            cands.append(b)
+        dom = dominators(f)
+        nb = [bb for bb, blk_ in f.blocks.items() if any(f.node(e) is nested[0] for e in blk_.elems)]
+        # the test that decides "this entry is a link": the last of the candidates on the way to the nested scan
+        cands = [c for c in cands if nb and c in dom.get(nb[0], ())]
+        for c in cands:
+            if all(o in dom.get(c, ()) for o in cands):
+                start = c
+        if start is None:
+            raise AnalysisBroken('R-DSC: the test of the entry length against the slice size was not found')
+        preds = f.preds()
+        heads = []
+        for u in dom:
+            for h in f.blocks[u].succ:
+                if h is not None and h in dom.get(u, ()):
+                    body = {h, u}
+                    work = [u] if u != h else []
+                    while work:
+                        x = work.pop()
+                        for (pb, _) in preds.get(x, []):
+                            if pb not in body and pb in dom:
+                                body.add(pb)
+                                work.append(pb)
+                    if start in body:
+                        heads.append((len(body), h, body))
+        if not heads:
+            raise AnalysisBroken('R-DSC: the link path of scan_border is not inside a loop')
+        _, header, body = min(heads)
+        taint = {}
+        for n in f.all_nodes():
+            if is_call(n, cq='memcpy'):
+                a = call_args(f, n)
+                srcs = {x.get('id') for x in f.walk(a[1]) if x['k'] == 'DeclRefExpr'} if len(a) > 1 else set()
+                src = lk if lk in srcs else (rk if rk in srcs else None)
+                if src is not None:
+                    tv = root_var(f, a[0])
+                    if tv:
+                        taint[tv] = 'L' if src == lk else 'R'
+        tg = facts.get(nested[0].get('callee'))
+        pnames = [p['name'] for p in tg.params] if tg else []
+        # positions of the (key, endpoint) pairs of the callee
+        cp = pairs_of(tg) if tg else []
+        if len(cp) != 2:
+            raise AnalysisBroken('R-DSC: the nested scan does not take two (key, endpoint) pairs')
+        bad = []
+        rows = 0
+        Fk = 10
+        for l in (INF, INCL, EXCL):
+            for r in (INF, INCL, EXCL):
+                for lc in (-1, 0, 1):
+                    for lsz in (4, 8, 12):
+                        for rc in (-1, 0, 1):
+                            for rsz in (Fk - 1, Fk, Fk + 1):
+                                # reference
+                                nothing = {('inf',), ('empty', INCL), ('empty', EXCL)}   # left bounds that exclude nothing
+                                if l == INF or lc < 0:
+                                    wl = nothing
+                                elif lc == 0:
+                                    wl = {('rest', l)} if lsz > 8 else nothing
+                                else:
+                                    wl = None
+                                # right: r is compared as a whole key, so handing it on unchanged is always right (if
+                                # wasteful); INF is right only above the link, ending only at or below its prefix
+                                if r == INF:
+                                    wr = {('inf',)}
+                                elif rc > 0:
+                                    wr = {('inf',), ('whole', r)}
+                                elif rc == 0 and rsz > Fk:
+                                    wr = {('whole', r)}
+                                else:
+                                    wr = None
+                                if wl is None and wr is None:
+                                    continue
+                                rows += 1
+                                got = _interp_link(facts, f, start, header, body, nested[0], cp, {le: l, re_: r},
+                                                   lk, rk, res, taint, lc, lsz, rc, rsz, Fk)
+                                if wl is None:
+                                    ok = got == 'skip'
+                                    want = 'skip'
+                                elif wr is None:
+                                    ok = got == 'end' or (isinstance(got, tuple) and got[0] == 'descend' and
+                                                          got[1] in wl and got[2] == ('whole', r))
+                                    want = 'end of the range'
+                                else:
+                                    ok = isinstance(got, tuple) and got[0] == 'descend' and got[1] in wl and got[2] in wr
+                                    want = 'descend with left %s, right %s' % (sorted(wl)[0], sorted(wr)[0])
+                                if not ok:
+                                    bad.append((l, r, lc, lsz, rc, rsz, got, want))
+        key = 'yakushima::scan_border [every instantiation]'
+        e = agg.setdefault(key, {'rows': rows, 'bad': bad, 'loc': f.loc})
+        if bad and not e['bad']:
+            e['bad'] = bad
+    for key, e in sorted(agg.items()):
+        b0 = e['bad'][0] if e['bad'] else None
+        S.ob('R-DSC', key, 'endpoint translation at a link entry (%d rows)' % e['rows'], not e['bad'],
+             'agrees with the reference on every row' if not e['bad'] else
+             'disagrees on %d rows, e.g. l_end=%s r_end=%s, left slice comparison %+d with l_key.size() %s 8, right '
+             'comparison %+d with r_key.size() %s the prefix size: the code does `%s`, the reference says `%s`' % (
+                 len(e['bad']), str(b0[0]).split('::')[-1], str(b0[1]).split('::')[-1], b0[2],
+                 {4: '<', 8: '==', 12: '>'}[b0[3]], b0[4], {9: '<', 10: '==', 11: '>'}[b0[5]],
+                 _show(b0[6]), b0[7]), loc=e['loc'], detail=[str(x) for x in e['bad'][:8]] or None)
+    S.require('R-DSC', 'scan_border instantiations evaluated', len(agg), 1)
+
+
+def _show(x):
+    return str(x).replace('yakushima::scan_endpoint::', '')
+
+
+def cv_of(f, n):
+    from yk.facts import cv_through
+    try:
+        return cv_through(f, n)
+    except Exception:   # noqa: BLE001
+        return None
+
+
+def _reaches(f, b, node):
+    pos = f.positions()
+    tgt = None
+    for bb, blk in f.blocks.items():
+        for e in blk.elems:
+            if f.node(e) is node:
+                tgt = bb
+    seen = {b}
+    st = [b]
+    while st:
+        x = st.pop()
+        if x == tgt:
+            return True
+        for s_ in f.blocks[x].succ:
+            if s_ is not None and s_ not in seen:
+                seen.add(s_)
+                st.append(s_)
+    return False
+
+
+def _interp_link(facts, f, start, header, body, nested, cp, enums, lk, rk, res, taint, lc, lsz, rc, rsz, Fk):
+    env = dict(enums)
+
+    class Unknown(Exception):
+        pass
+
+    def side_of(n):
+        for x in f.walk(n):
+            if x['k'] == 'DeclRefExpr':
+                if x.get('id') == lk or taint.get(x.get('id')) == 'L':
+                    return 'L'
+                if x.get('id') == rk or taint.get(x.get('id')) == 'R':
+                    return 'R'
+        return None
+
+    def sv(n):
+        """abstract string_view value of expression n: ('empty',) | ('L', off) | ('R', off)"""
+        x = f.strip(n, casts=True)
+        hops = 0
+        while x is not None and x['k'] in ('CXXConstructExpr', 'MaterializeTemporaryExpr', 'CXXBindTemporaryExpr',
+                                           'CXXFunctionalCastExpr') and hops < 6:
+            kids = x.get('args') or x.get('ch') or []
+            if not kids:
+                return ('empty',)
+            x = f.strip(f.node(kids[0]), casts=True)
+            hops += 1
+        if x is None:
+            raise Unknown()
+        if x['k'] == 'StringLiteral':
+            if (x.get('val') or '') in ('', '""'):
+                return ('empty',)
+            raise Unknown()
+        if x['k'] == 'DeclRefExpr':
+            if x['id'] == lk:
+                return ('L', 0)
+            if x['id'] == rk:
+                return ('R', 0)
+            if x['id'] in env and isinstance(env[x['id']], tuple):
+                return env[x['id']]
+        raise Unknown()
+
+    def size_of(v):
+        if v == ('empty',):
+            return 0
+        if v[0] == 'L':
+            return max(lsz - v[1], 0)
+        if v[0] == 'R':
+            return max(rsz - v[1], 0)
+        raise Unknown()
+
+    def ev(n):
+        n = f.strip(n, casts=True)
+        if n is None:
+            raise Unknown()
+        k = n['k']
+        if 'cv' in n and k != 'DeclRefExpr':
+            return int(n['cv'])
+        if k == 'DeclRefExpr':
+            if n.get('dk') == 'enum':
+                return n['id']
+            if n['id'] in env:
+                v = env[n['id']]
+                if isinstance(v, Unknown):
+                    raise Unknown()
+                return v
+            ty = (n.get('ty') or '').replace('const ', '')
+            if ty == 'bool':
+                return 0
+            if ty == 'unsigned char':
+                return 9                       # a link entry
+            if ty in ('unsigned long', 'std::size_t') and n.get('dk') == 'parm':
+                return 0
+            t2 = ty.rstrip()
+            if t2.endswith('const'):
+                t2 = t2[:-5].rstrip()
+            if t2.endswith('*'):
+                return 0
+            raise Unknown()
+        if k in ('IntegerLiteral', 'CXXBoolLiteralExpr'):
+            return int(n['val'])
+        if k in ('CXXNullPtrLiteralExpr', 'GNUNullExpr'):
+            return 0
+        if k == 'BinaryOperator':
+            a, b = f.ch(n)
+            op = n['op']
+            if op == '&&':
+                return 1 if (ev(a) and ev(b)) else 0
+            if op == '||':
+                return 1 if (ev(a) or ev(b)) else 0
+            if op == '=':
+                v = ev(b)
+                x = f.strip(a)
+                if x is not None and x['k'] == 'DeclRefExpr':
+                    env[x['id']] = v
+                return v
+            x, y = ev(a), ev(b)
+            return {'==': int(x == y), '!=': int(x != y), '<': int(x < y), '>': int(x > y), '<=': int(x <= y),
+                    '>=': int(x >= y), '+': x + y if isinstance(x, int) else None,
+                    '-': x - y if isinstance(x, int) else None}[op]
+        if k == 'UnaryOperator' and n['op'] == '!':
+            return 0 if ev(f.ch(n)[0]) else 1
+        if k == 'UnaryOperator' and n['op'] == '-':
+            return -ev(f.ch(n)[0])
+        if k == 'ConditionalOperator':
+            c, a, b = f.ch(n)
+            return ev(a) if ev(c) else ev(b)
+        if k in ('InitListExpr',) and not f.ch(n):
+            return INF if 'scan_endpoint' in (n.get('ty') or '') else 0
+        if k in CALL_KINDS:
+            cq = n.get('cq') or ''
+            cn = n.get('cn')
+            if cq == 'memcmp':
+                a = call_args(f, n)
+                s0, s1 = side_of(a[0]), side_of(a[1])
+                if s0 in ('L', 'R') and s1 is None:
+                    return lc if s0 == 'L' else rc
+                if s1 in ('L', 'R') and s0 is None:
+                    return -(lc if s1 == 'L' else rc)
+                raise AnalysisBroken('R-DSC: memcmp at %s does not compare an endpoint key with the entry' % n.get('loc'))
+            if cn == 'size':
+                recv = call_recv(f, n)
+                rv = root_var(f, recv)
+                if rv == res:
+                    return 0
+                try:
+                    return size_of(sv(recv))
+                except Unknown:
+                    return Fk                  # the link's key prefix (full_key)
+            if cn == 'empty':
+                recv = call_recv(f, n)
+                if root_var(f, recv) == res:
+                    return 1
+                try:
+                    return int(size_of(sv(recv)) == 0)
+                except Unknown:
+                    return 0
+            if cq.startswith('std::min') or cq.startswith('std::max'):
+                vals = [ev(a) for a in call_args(f, n)]
+                return min(vals) if cq.startswith('std::min') else max(vals)
+            raise Unknown()
+        raise Unknown()
+
+    def assign_sv(nd):
+        """string_view assignments / mutations; returns True if handled"""
+        if nd['k'] == 'CXXOperatorCallExpr' and nd.get('cn') == 'operator=' and 'basic_string_view' in (nd.get('cq') or ''):
+            a = [f.node(x) for x in nd.get('args', [])]
+            tgt = f.strip(a[0], casts=True)
+            if tgt is not None and tgt['k'] == 'DeclRefExpr':
+                try:
+                    env[tgt['id']] = sv(a[1])
+                except Unknown:
+                    env[tgt['id']] = Unknown()
+                return True
+        if nd['k'] == 'CXXMemberCallExpr' and nd.get('cn') in ('remove_prefix',) and \
+                'basic_string_view' in (nd.get('cq') or ''):
+            tgt = f.strip(call_recv(f, nd), casts=True)
+            if tgt is not None and tgt['k'] == 'DeclRefExpr' and isinstance(env.get(tgt['id']), tuple):
+                v = env[tgt['id']]
+                nbytes = ev(call_args(f, nd)[0])
+                env[tgt['id']] = ('empty',) if v == ('empty',) else (v[0], v[1] + nbytes)
+                return True
+        return False
+
+    b = start
+    steps = 0
+    first = True
+    loop_exits = {x for x in f.blocks[header].succ if x is not None and x not in body}
+    while True:
+        steps += 1
+        if steps > 400:
+            raise AnalysisBroken('R-DSC: the link path of scan_border does not terminate abstractly')
+        if not first and b == header:
+            return 'skip'
+        if not first and b not in body and b in loop_exits:
+            return 'left-the-loop'
+        blk = f.blocks[b]
+        elems = blk.elems
+        if first:
+            # start at the evaluation of the branch condition (skip what precedes it in the block)
+            cond_nodes = {id(x) for x in f.walk(blk.term['cond'])}
+            idxs = [i for i, e in enumerate(elems) if id(f.node(e)) in cond_nodes]
+            elems = elems[min(idxs):] if idxs else []
+        for e in elems:
+            n = f.node(e)
+            if n is nested:
+                a = call_args(f, n)
+                (li, _, _), (ri, _, _) = cp
+
+                def arg_pair(i):
+                    try:
+                        kv = sv(a[i])
+                    except Unknown:
+                        kv = ('?',)
+                    try:
+                        ee = ev(a[i + 1])
+                    except Unknown:
+                        ee = '?'
+                    return kv, ee
+                (lkv, lee), (rkv, ree) = arg_pair(li), arg_pair(ri)
+
+                def norm_l(kv, ee):
+                    if ee == INF:
+                        return ('inf',)
+                    try:
+                        if size_of(kv) == 0:
+                            return ('empty', ee)
+                    except Unknown:
+                        pass
+                    if kv == ('empty',):
+                        return ('empty', ee)
+                    if kv == ('L', 8):
+                        return ('rest', ee)
+                    return ('other', kv, ee)
+
+                def norm_r(kv, ee):
+                    if ee == INF:
+                        return ('inf',)
+                    if kv == ('R', 0):
+                        return ('whole', ee)
+                    return ('other', kv, ee)
+                return ('descend', norm_l(lkv, lee), norm_r(rkv, ree))
+            if n['k'] == 'ReturnStmt':
+                rc_ = R.const_of(f, f.ch(n)[0]) if f.ch(n) else None
+                return 'end' if rc_ == 'yakushima::status::OK_SCAN_END' else 'return %s' % rc_
+            if assign_sv(n):
+                continue
+            if n['k'] == 'DeclStmt':
+                for v in n.get('vars', []):
+                    ty = (v.get('type') or '')
+                    if 'basic_string_view' in ty:
+                        try:
+                            env[v['id']] = sv(f.node(v['init'])) if 'init' in v else ('empty',)
+                        except Unknown:
+                            env[v['id']] = ('empty',) if 'init' in v and not f.ch(f.node(v['init'])) and \
+                                not (f.node(v['init']).get('args')) else Unknown()
+                    elif 'init' in v:
+                        try:
+                            env[v['id']] = ev(v['init'])
+                        except Unknown:
+                            env[v['id']] = INF if 'scan_endpoint' in ty else Unknown()
+            elif n['k'] == 'BinaryOperator' and n.get('op') == '=':
+                try:
+                    ev(n)
+                except Unknown:
+                    x = f.strip(f.ch(n)[0])
+                    if x is not None and x['k'] == 'DeclRefExpr':
+                        env[x['id']] = Unknown()
+        first = False
+        if not blk.succ:
+            return 'fell-off'
+        if len(blk.succ) == 1:
+            b = blk.succ[0]
+        else:
+            if not blk.term or 'cond' not in blk.term:
+                raise AnalysisBroken('R-DSC: unmodelled terminator at %s' % (blk.term or {}).get('loc'))
+            try:
+                c = ev(blk.term['cond'])
+            except Unknown:
+                raise AnalysisBroken('R-DSC: the link path branches on a value outside the abstraction at %s' %
+                                     (blk.term.get('loc'),))
+            b = blk.succ[0] if c else blk.succ[1]
+        if b is None:
+            raise AnalysisBroken('R-DSC: pruned edge taken')
+
+
+# ---------------------------------------------------------------------------
 # R-MAX: the truncation test dominates every further growth
 # ---------------------------------------------------------------------------
 
@@ -1155,10 +1590,11 @@ def rule_lft(S):
 
 
 def run(S):
-    S.undecided = ['that the returned set equals the interval as a whole (the endpoint translation when descending into '
-                   'a next layer, ordering across borders, values) - runtime data; decided parts: R-FLT (the endpoint '
-                   'filter of an entry that fits its slice, as a decision table), R-LFT (every visited border gets the '
-                   'walk\'s endpoints), R-MAX (the truncation test dominates every growth)',
+    S.undecided = ['that the returned set equals the interval as a whole (ordering across borders and layers, values, the '
+                   'descent) - runtime data; decided parts: R-FLT (the endpoint filter of an entry that fits its slice) '
+                   'and R-DSC (the endpoint translation at a link entry), both as decision tables over their finite '
+                   'abstraction, R-LFT (every visited border gets the walk\'s endpoints), R-MAX (the truncation test '
+                   'dominates every growth)',
                    'R-INF covers the scan family (interface_scan.h, scan_helper.h); the cursor API is covered by C10']
     S.assumptions = ['a (string_view, scan_endpoint) parameter pair is recognised by adjacency in the parameter list']
     rule_inf(S)
@@ -1167,6 +1603,7 @@ def run(S):
     rule_max(S)
     rule_lft(S)
     rule_flt(S)
+    rule_dsc(S)
     from checks import keylen, C18
     keylen.rule_narrow(S)
     C18.rule_slice(S)
